@@ -130,6 +130,48 @@ def _work(units):
             for v in acc.viol:
                 if v["kind"].startswith("reject:after") and "before" not in v:
                     v["before"] = poison
+        elif u[0] == "recompile":
+            # the recompile entry point: a rejected text must raise there too (also when it collides with the
+            # current text under a weak change detector) and must leave the evaluator as it was
+            _, base = u
+            from ..enum import collide
+
+            bad = [("near", t) for t in NEAR]
+            for body in ('def e { return "a" weighted }', 'def e { return "a" weighted 1 ; }', 'def e { return "a" weighted 1 } }', 'x def e { return "a" weighted 1 }'):
+                bad.append(("crc32-twin", collide.crc32_twin(base, body)))
+                bad.append(("crc32-zero", collide.crc32_twin(0, body)))
+                bad.append(("crc32-ones", collide.crc32_twin(0xFFFFFFFF, body)))
+                try:
+                    bad.append(("lensum-twin", collide.same_length_and_sum(base, body)))
+                except ValueError:
+                    pass
+            b = impl.build(base)
+            if b[0] != "ok":
+                continue
+            probe = {"uid": 1, "org": "a", "f": 1}
+            before = impl.call(b[1], probe)
+            for kind, t in bad:
+                cl = rp.classify(t)
+                if cl[0] != "reject":
+                    acc.add("ambiguous_skipped")
+                    continue
+                acc.add("programs")
+                acc.add("evaluations", 2)
+                try:
+                    with __import__("mc.common", fromlist=["quiet"]).quiet():
+                        b[1].recompile(t)
+                    raised = False
+                except Exception:  # noqa
+                    raised = True
+                after = impl.call(b[1], probe)
+                acc.outcomes.add(f"recompile:{kind}:{raised}")
+                if not raised or after != before:
+                    acc.violation({"kind": "reject:recompile-" + kind, "sub": "accepted", "text": t, "current": base,
+                                   "observed": ["recompile(text) returned normally" if not raised else "raised", f"probe before {before!r} after {after!r}"],
+                                   "why": "reference: " + cl[1]})  # fmt: skip
+                fresh = impl.build(t)
+                if fresh[0] == "ok":
+                    acc.violation({"kind": "reject:" + kind, "sub": "accepted", "text": t, "observed": ["ExperimentEvaluator(text) returned an evaluator"], "why": "reference: " + cl[1]})
         elif u[0] == "texts":
             for kind, text in u[1]:
                 judge(acc, kind, text)
@@ -227,6 +269,8 @@ def units(tier):
         out += [("lexseq", c, k) for c in ALPHA]
     out.append(("texts", [("near-miss", t) for t in NEAR]))
     out += [("after", p) for p in POISON]
+    out += [("recompile", 'def exp { salt: "s1" splitters: uid, org if f == 1 { return "A1" weighted 1, "A2" weighted 1 } else { return "A3" weighted 1 } }'),
+            ("recompile", 'def e { splitters: uid return "a" weighted 1, "b" weighted 1 }')]
     texts, cells = lrcell_texts()
     out += [("texts", texts[i : i + 400]) for i in range(0, len(texts), 400)]
     return out, cells
@@ -246,6 +290,13 @@ def run(res, tier):
 
 def replay(data):
     text = data["text"]
+    if "current" in data:
+        b = impl.build(data["current"])
+        try:
+            b[1].recompile(text)
+            return True, "recompile(text) returned normally"
+        except Exception as e:  # noqa
+            return False, f"recompile raises {type(e).__name__}"
     if "before" in data:
         impl.build(data["before"])
     cl = rp.classify(text)
